@@ -117,11 +117,60 @@ pub fn run(ctx: &Ctx) -> Report {
             }
         }
     }
+    // replayed HMAC values: an authentic message [A.., INTEGRITY(h)] re-arranged by someone without the
+    // key into [A.., X(value h), B.., INTEGRITY(h)] - X an attribute of another type standing exactly where
+    // the integrity attribute stood, B attributes of the forger's choosing; also h in an attribute before
+    // A, h as the value of the first of two integrity attributes, and the plain original
+    for sha256 in [false, true] {
+        for a_list in [&[][..], &[(0x8022u16, &b"sw"[..])][..], &[(0x0006, &b"user"[..]), (0x0024, &[0, 0, 0, 7][..])][..]] {
+            let mut orig = wire::encode_header(0, 1, tid, 0);
+            for (t, v) in a_list {
+                wire::append_raw(&mut orig, *t, v);
+            }
+            let prefix = orig.clone();
+            if sha256 {
+                wire::append_mi256(&mut orig, engine_in::KEY, 32);
+            } else {
+                wire::append_mi(&mut orig, engine_in::KEY);
+            }
+            let hlen = if sha256 { 32 } else { 20 };
+            let h = orig[orig.len() - hlen..].to_vec();
+            let mi_type = if sha256 { wire::MI256 } else { wire::MI };
+            look.push(Case::new("expose", orig.clone()));
+            for x in [0xC0DEu16, 0x8022, 0x0014, 0x7F00, if sha256 { wire::MI } else { wire::MI256 }] {
+                if a_list.iter().any(|(t, _)| *t == x) {
+                    continue;
+                }
+                for b_list in [&[(0x0006u16, &b"evil"[..])][..], &[(0x0020, &[0, 1, 0x21, 0x12, 0x21, 0x12, 0xA4, 0x43][..]), (0x802B, &[1, 2, 3, 4][..])][..], &[][..]] {
+                    for fp in [false, true] {
+                        let mut f = prefix.clone();
+                        wire::append_raw(&mut f, x, &h);
+                        for (t, v) in b_list {
+                            if !a_list.iter().any(|(t2, _)| t2 == t) {
+                                wire::append_raw(&mut f, *t, v);
+                            }
+                        }
+                        wire::append_raw(&mut f, mi_type, &h);
+                        if fp {
+                            wire::append_fp(&mut f);
+                        }
+                        look.push(Case::new("expose", f));
+                    }
+                }
+                // h in front of everything
+                let mut f = wire::encode_header(0, 1, tid, 0);
+                wire::append_raw(&mut f, x, &h);
+                f.extend_from_slice(&prefix[20..]);
+                wire::append_raw(&mut f, mi_type, &h);
+                look.push(Case::new("expose", f));
+            }
+        }
+    }
     let acc = acc.merge(crate::props::sweep(look.into_par_iter(), judge));
     Report {
         acc,
         exhaustive: true,
-        rule: "all sequences over {OPT, SOFTWARE, USERNAME, MI, MI256/32, MI256/16, FP} up to the depth, reference-serialised with correct HMACs/CRC, x {request, success}; only those the reference decoder accepts are judged (distinct_nontrivial); the iterated sequence is also taken through nth / skip / step_by / fold / last / count / size_hint and must be the same; plus messages of 65 500..=65 552 bytes with every tail of sealing attributes; plus messages with 1..=48 distinct attribute types before every tail of sealing attributes (lookups judged for every type present); plus messages whose hidden MESSAGE-INTEGRITY (behind MI-SHA256) carries a sealing-attribute header at every 4-aligned offset of its value; tail replacement is covered because every alternative tail of a prefix is itself a sequence of the space".into(),
+        rule: "all sequences over {OPT, SOFTWARE, USERNAME, MI, MI256/32, MI256/16, FP} up to the depth, reference-serialised with correct HMACs/CRC, x {request, success}; only those the reference decoder accepts are judged (distinct_nontrivial); the iterated sequence is also taken through nth / skip / step_by / fold / last / count / size_hint and must be the same; plus messages of 65 500..=65 552 bytes with every tail of sealing attributes; plus messages with 1..=48 distinct attribute types before every tail of sealing attributes (lookups judged for every type present); plus authentic messages re-arranged without the key so that an attribute of another type carrying the HMAC value stands where the integrity attribute stood, followed by further attributes and the original integrity attribute (validate_integrity must fail: reference HMAC); plus messages whose hidden MESSAGE-INTEGRITY (behind MI-SHA256) carries a sealing-attribute header at every 4-aligned offset of its value; tail replacement is covered because every alternative tail of a prefix is itself a sequence of the space".into(),
         bounds: json!({"sequences": n_sk, "depth": depth, "classes": 2}),
         assumptions: vec!["parser acceptance itself is C02's business: buffers the reference refuses are skipped here".into()],
         ..Default::default()
@@ -216,6 +265,11 @@ pub fn judge(case: &Case, acc: &mut Acc) {
                 match m.attrs.iter().find(|a| a.typ == t) {
                     None => viol!(acc, P, "validated-algorithm-absent", case, "validate_integrity reports an algorithm whose attribute is not in the message", "present", format!("{t:#06x} absent")),
                     Some(checked) => {
+                        // ... and that HMAC is right for the bytes up to its attribute (reference HMAC): else what
+                        // was "validated" covers something else than the attributes exposed in front of it
+                        if !wire::integrity_ok(buf, checked, engine_in::KEY) {
+                            viol!(acc, P, "validated-hmac-does-not-cover-exposed", case, "validate_integrity succeeds although the integrity attribute it names is not the HMAC of the bytes in front of it: exposed attributes are not covered by a checked HMAC", "IntegrityCheckFailed", format!("Ok({t:#06x})"));
+                        }
                         for (gt, gv) in &got {
                             if wire::is_integrity(*gt) || *gt == wire::FP {
                                 continue;
